@@ -7,3 +7,5 @@ import TsVerif.C04.Props
 #print axioms TsVerif.C04.override_span_witness
 #print axioms TsVerif.C04.changed_covers_partial
 #print axioms TsVerif.C04.spans_contiguous
+#print axioms TsVerif.C04.walk_stackOK
+#print axioms TsVerif.C04.descend_end
